@@ -27,6 +27,7 @@ def alphabet(version: str, thorough: bool) -> list:
         "1;255;3;0;0;-3",
         "1;255;3;0;0;55.5",
         "1;255;3;0;11;é",
+        "1;255;3;0;11;\udcff\udc80",  # what a transport decoding with errors="surrogateescape" makes of Latin-1 bytes
         "1;255;3;0;11;a;b",
         "1;255;3;0;12;1.0",
         '1;3;0;0;6;désc "q"',
@@ -204,6 +205,49 @@ def make(cfg):
     return Monitor(cfg)
 
 
+def write_fault_case(job) -> list:
+    """A save meets an OS-level error (of several classes, at open / write / close, possibly after a short write):
+    it may fail with the persistence write error - but if it returns normally, the file is a file written by save
+    and must load back to the registry."""
+    from aiomysensors.exceptions import PersistenceWriteError
+    from aiomysensors.persistence import Persistence
+
+    from .. import fsshim
+
+    excn, op, short, big = job
+    exc = {"OSError": OSError(5, "I/O error"), "TimeoutError": TimeoutError(110, "timed out"), "BlockingIOError": BlockingIOError(11, "would block"),
+           "InterruptedError": InterruptedError(4, "interrupted"), "PermissionError": PermissionError(13, "denied")}[excn]
+    nodes = {1: Node(1, 17, "2.0", children={3: Child(3, 6, values={2: "a"})})}
+    if big:
+        for n in range(2, 60):
+            nodes[n] = Node(n, 17, "2.0", children={c: Child(c, 6, description=f"child {c} of {n}", values={0: "21.5", 2: "on"}) for c in range(4)}, sketch_name=f"sketch {n}")
+    viols = []
+    for existing in (False, True):
+        vfs = fsshim.VFS()
+        p = Persistence(nodes, pers.PATH)
+        if existing:
+            kind, val = pers.run(Persistence({7: Node(7, 17, "1.4")}, pers.PATH).save, vfs)
+            assert kind == "ok", val
+        vfs.fail[op] = (exc, short) if op == "write" and short else exc
+        kind, val = pers.run(p.save, vfs)
+        consumed = op not in vfs.fail
+        vfs.fail.clear()
+        if kind == "raise" and isinstance(val, PersistenceWriteError):
+            continue
+        rep = {"write_fault": list(job)}
+        if kind != "ok":
+            viols.append((f"C13|write-fault-foreign-exception:{type(val).__name__}", f"save meeting {excn} at {op} (after {short} bytes, {'large' if big else 'small'} registry): raised {val!r} instead of the persistence write error", rep))
+            continue
+        if not consumed:
+            continue  # the fault position was never reached (e.g. a small registry is written at close): an ordinary save
+        kind2, val2, loaded, _ = pers.load_bytes(bytes(vfs.files.get(pers.PATH, b"")))
+        if kind2 != "ok":
+            viols.append(("C13|write-fault-saved-file-rejected", f"save meeting {excn} at {op} (after {short} bytes, {'large' if big else 'small'} registry, file {'existed' if existing else 'new'}) returned normally, but the file it wrote is rejected by load: {str(val2)[:200]}", rep))
+        elif registry_view(loaded) != registry_view(nodes):
+            viols.append(("C13|write-fault-roundtrip-differs", f"save meeting {excn} at {op} returned normally, but the file loads to nodes {sorted(loaded)} instead of {sorted(nodes)}", rep))
+    return viols
+
+
 def overlap_case(job) -> list:
     """A save is in progress (k of its file operations done) when a message grows the registry and save is
     called again on the same Persistence object (the scheduled saver and an explicit save overlap). File
@@ -279,7 +323,7 @@ def overlap_case(job) -> list:
 def grid(quick: bool) -> list:
     types = [17, 0, -1, int(BIGT)]
     versions = ["2.0", "", "é"]
-    names = ["", "é", "a;b"]
+    names = ["", "é", "a;b", "x\udce9"]
     batteries = [0, 100, 55]
     hbs = [0, 4294967295, -1]
     sleeps = [False, True]
@@ -328,6 +372,8 @@ def run(ctx: core.Ctx) -> core.Report:
     res["violations"] += ires["violations"]
     ojobs = [(k, var, ex) for k in range(0, 5) for var in ("node", "child", "value", "longer") for ex in (True, False)]
     ores = core.pmap(overlap_case, ojobs, ctx.workers)
+    fjobs = [(e, op, k, big) for e in ("OSError", "TimeoutError", "BlockingIOError", "InterruptedError", "PermissionError") for op in ("open", "write", "close") for k in ((0, 100, 4096) if op == "write" else (0,)) for big in (False, True)]
+    ores += core.pmap(write_fault_case, fjobs, ctx.workers)
     res["violations"] += [core.Violation(k, w, rep) for r in ores for k, w, rep in r]
     g, _ = grid(ctx.quick)
     chunks = [g[i : i + 60] for i in range(0, len(g), 60)]
@@ -339,7 +385,7 @@ def run(ctx: core.Ctx) -> core.Report:
         "traces_validated_against_impl": res["transitions"] + len(g),
         "exhaustive": False,
         "constructed_registries": len(g),
-        "rule": "every registry reachable in <= depth received messages over an alphabet with boundary payloads is saved by the real Persistence.save (real aiofiles, in-memory fs) and loaded into an empty registry by the real load; plus a full product grid of directly constructed nodes; plus the legacy-layout translation of every saved file; plus histories in which the same object loads other files by path (missing / invalid / valid) between messages and saves; plus a second save call overlapping a running one after 0-4 of its file operations while the registry grows",
+        "rule": "every registry reachable in <= depth received messages over an alphabet with boundary payloads is saved by the real Persistence.save (real aiofiles, in-memory fs) and loaded into an empty registry by the real load; plus a full product grid of directly constructed nodes; plus the legacy-layout translation of every saved file; plus histories in which the same object loads other files by path (missing / invalid / valid) between messages and saves; plus a second save call overlapping a running one after 0-4 of its file operations while the registry grows; plus saves that meet one of five OSError classes at open / write (also after a short write of 100 / 4096 bytes) / close, small and 30 KB registries: normal return implies a loadable, equal file",
         "bounds": {"depth": depth, "per_cfg": res["per_cfg"]},
         "samples": ctx.pick(res["samples"], 2) + [{"grid": list(g[ctx.seed % len(g)])}],
     }
@@ -347,6 +393,9 @@ def run(ctx: core.Ctx) -> core.Report:
 
 
 def replay(data: dict) -> dict:
+    if "write_fault" in data:
+        r = write_fault_case(tuple(data["write_fault"]))
+        return {"violated": bool(r), "violations": [{"key": k, "what": w} for k, w, _ in r]}
     if "overlap" in data:
         r = overlap_case(tuple(data["overlap"]))
         return {"violated": bool(r), "violations": [{"key": k, "what": w} for k, w, _ in r]}
